@@ -556,7 +556,9 @@ impl<const M: usize> Sim<M> {
         // ---- limit observer
         if obs.limit != self.limit {
             rep.violate("C06", format!("C06/limit-changed-by-{:?}", kind), format!("{:?} -> {:?}", self.limit, obs.limit));
-            self.limit = obs.limit;
+            // the limit the *user* set stays the reference for the conservation monitor (C07): an
+            // arena that quietly stores a different value must not get away with it
+            rep.violate("C07", format!("C07/allocation_limit-reports-a-different-limit-than-was-set/{:?}", kind), format!("set {:?}, reported {:?} ({})", self.limit, obs.limit, self.cur));
         }
         if self.bump.min_align() != M {
             rep.violate("C06", "C06/min_align-changed", format!("{}", self.bump.min_align()));
